@@ -157,6 +157,9 @@ impl Property for C07 {
         }
         v
     }
+    fn fuzz_sequences(&self) -> Vec<(&'static str, usize)> {
+        vec![("/hist/ops", 36)]
+    }
     fn run(&self, case: &Case07) -> Outcome {
         let mut out = Outcome::default();
         let mut w = World::new(&case.hist.cfg);
